@@ -344,3 +344,22 @@ Definition like (t : table) (n : string) (target : string) : bool :=
   | None, Some ti => like_methods t n (i_methods ti)
   | None, None => false
   end.
+
+(* ---- declaring an interface (parser/interface_parser.go, after fix 4b3f319): the declaration that
+   would close an extends cycle is refused — interfaceExtendsReaches is the same BFS, from the new
+   interface's extends list, looking for its own name; then VM.AddInterface registers the interface
+   unless the name is taken (the registered record is never replaced) *)
+Definition declare_iface (t : table) (n : string) (i : ifc) : option table :=
+  match bfs (bfs_fuel t i) t n [] (i_extends i) with
+  | Ok false =>
+      Some (match get_iface t n with
+            | Some _ => t
+            | None => {| classes := classes t; ifaces := (ifaces t ++ [(n, i)])%list |}
+            end)
+  | _ => None                                   (* "接口 … 的继承成环": the declaration is an error *)
+  end.
+Fixpoint declare_ifaces (t : table) (ds : list (string * ifc)) : option table :=
+  match ds with
+  | [] => Some t
+  | (n, i) :: r => match declare_iface t n i with Some t' => declare_ifaces t' r | None => None end
+  end.
